@@ -15,7 +15,7 @@ RULE = (
     "sbatch failing for its whole retry series or answering without a job id for the n-th distinct batch, a single "
     "transient sbatch failure (benign), and node kills (NODE_FAIL or TIMEOUT) of the n-th started batch at its k-th "
     "scheduling point while it runs jobs (points while the node acts as submitter belong to C11: excluded, counted); "
-    "after the world drains the documented try-submit-jobs recovery runs until completion. Ground truth from the "
+    "up to 2 operator commands (try-submit-jobs / show-status -n) fired a generated number of steps into the run; after the world drains the documented try-submit-jobs recovery runs until completion. Ground truth from the "
     "simulator: a job is lost iff its batch was never enqueued, or its node was killed before the job's result row "
     "was on disk. Oracle on the final results.json: missing_jobs == reference missing set (lost jobs, jobs on or "
     "behind a cycle, jobs waiting for a missing job unless flagged and another blocker failed -> canceled); every "
@@ -51,7 +51,10 @@ def cases(draw):
             used.add(("k", b))
             faults.append({"kind": "kill", "batch": b, "at": draw(st.integers(1, 60)), "runner_only": True,
                            "state": draw(st.sampled_from(["NODE_FAIL", "TIMEOUT"]))})
-    return {"scn": scn, "schedule": draw(gen.schedules()), "faults": faults}
+    # the operator's try-submit-jobs / show-status may also run while batches are still active (a generated number of
+    # steps into the run), not only after everything drained
+    user = draw(st.lists(st.fixed_dictionaries({"at": st.integers(20, 400), "cmd": st.sampled_from(["try", "show"])}), max_size=2))
+    return {"scn": scn, "schedule": draw(gen.schedules()), "faults": faults, "user": user}
 
 
 def strategy(tier):
@@ -63,11 +66,25 @@ def run_case(case):
     faults = [dict(f) for f in case["faults"]]
     with H.Sim(scn, schedule=case["schedule"], faults=faults) as sim:
         w = sim.w
+        import os as _os
+
+        for u in sorted(case.get("user", []), key=lambda x: x["at"]):
+            def pred(ww, at=u["at"]):
+                return ww.steps >= at and _os.path.exists(_os.path.join(sim.out, "submitter_groups.json"))
+
+            def fire(ww, cmd=u["cmd"]):
+                if not sim.is_complete():
+                    sim.user_cmd(["try-submit-jobs", sim.out] if cmd == "try" else ["show-status", "-o", sim.out, "-n"])
+
+            w.user_events.append((u["cmd"], pred, fire, True))
         sim.submit()
         outcome = sim.drive()
+        w.user_events.clear()
         res = C.base_result(case, sim, outcome)
         v = res["violations"]
         jobs = R.job_map(scn)
+        if case.get("user"):
+            res["classes"].append("operator_command_during_run")
         _, cyclic = R.topo_order(scn)
         # ground truth
         lost = set()
